@@ -1886,3 +1886,551 @@ def r14(cx):
 
 
 RS.explanation += ' `$!` is written only by set_last_async_pid, called only by the asynchronous list and bg: subshell entry leaves it alone (R14).'
+
+
+# ---------------------------------------------------------------- added after seed wave 5
+# (C08-s9: run_exit_trap looked the EXIT trap up with the display accessor peek_state; C08-s10: PipeSet::shift dropped a held read end)
+GRAND_STATE = 'yash_env::trap::state::GrandState'
+TRAP_MODULE_RE = re.compile(r"^(<[&'\w ]*)?yash_env::trap::")
+PARENT_STATE_DISPLAY = {
+    'yash_builtin::trap::': 'the trap built-in: `trap` / `trap -p` in a subshell print the traps of the parent shell (POSIX: `$(trap)` '
+                            'shows what the shell had) - display only, nothing is executed from the result',
+}
+# derived impls that copy / format the whole GrandState: they hand out no TrapState of their own
+PARENT_STATE_STRUCTURAL = re.compile(r'^<yash_env::trap::state::GrandState as core::(clone::Clone|fmt::Debug)>::')
+
+
+def _reads_field(body, adt, field):
+    """(block, node) of every read (copy, move, shared borrow, call operand) of a place projecting `field` of `adt`."""
+    out = []
+    for b, j, s in body.stmts():
+        if s['k'] != 'assign':
+            continue
+        if s['rv']['k'] in ('ref', 'rawptr') and s['rv'].get('mut'):
+            continue
+        for p in Q.rvalue_places(s['rv']):
+            if Q._projects_field(p, adt, field):
+                out.append((b, s))
+    for b, t in body.calls():
+        for a in t['a']:
+            p = Q.operand_place(a)
+            if p is not None and Q._projects_field(p, adt, field):
+                out.append((b, t))
+    return out
+
+
+def _returned_components(F, body, seeds_whole, seeds_call):
+    """Which part of the value returned by `body` can be (derived from) the seeds: 'all', a set of tuple indices, or None.
+    seeds_whole = locals that are a parent state; seeds_call = {dest local: comps of the callee}."""
+    seeds = set(seeds_whole) | {l for l, c in seeds_call.items()}
+    if not seeds:
+        return None
+    taint = Q.forward_taint(body, seeds)
+    res = set()
+    for b, j, s in body.stmts():
+        if s['k'] == 'assign' and s['lhs']['l'] == 0:
+            if s['lhs'].get('p'):
+                if any(p['l'] in taint for p in Q.rvalue_places(s['rv'])):
+                    return 'all'
+                continue
+            rv = s['rv']
+            if rv['k'] == 'agg' and rv.get('ak') == 'tuple':
+                res |= {str(i) for i, o in enumerate(rv['ops']) if Q.operand_local(o) in taint}
+            elif any(p['l'] in taint for p in Q.rvalue_places(rv)):
+                return 'all'
+    for b, t in body.calls():
+        if t['dest']['l'] == 0:
+            c = seeds_call.get(0)
+            if c == 'all' or (c is None and any(Q.operand_local(a) in taint for a in t['a'])):
+                return 'all'
+            if c:
+                res |= set(c)
+    return res or None
+
+
+@RS.rule('C08.R15', 'K-CALLERS', 'the traps of the parent that a subshell keeps for display (GrandState::parent_state, remembered when command traps are '
+         'reset on subshell entry) never decide what is executed: every accessor of the trap module through which a parent state can come out '
+         '(enumerated from the reads of the field) is called only by the display code of the trap built-in; any other caller uses only the '
+         'component of the result that is the current state')
+def r15(cx):
+    F = cx.F
+    cx.require(GRAND_STATE in F.adts and any(f['name'] == 'parent_state' for v in F.adts[GRAND_STATE]['variants'] for f in v['fields']),
+               'GrandState::parent_state not found')
+    # accessors: root -> 'all' | set of tuple indices of the returned value that can be a parent state
+    acc = {}
+    for b in F.bodies.values():
+        rd = _reads_field(b, GRAND_STATE, 'parent_state')
+        if not rd or PARENT_STATE_STRUCTURAL.match(b.root):
+            continue
+        cx.fn(b.fn)
+        seeds = set()
+        for blk, node in rd:
+            seeds.add(node['lhs']['l'] if node['k'] == 'assign' else node['dest']['l'])
+        acc[b.root] = _returned_components(F, b, seeds, {}) or 'all'
+        cx.site('%s reads GrandState::parent_state at %s (returned part: %s)' % (b.fn, [b.loc(n) for _, n in rd], acc[b.root]))
+    cx.require(acc, 'no function reads GrandState::parent_state')
+    carriers = set()
+
+    def callers(names_of):
+        return F.callers_of(lambda names, t: any(n in names_of for n in names))
+
+    changed = True
+    while changed:
+        changed = False
+        # types whose methods hand out a parent state (the iterator over the trap set): whoever returns one is an accessor
+        for im in F.impls:
+            sa = im.get('self_adt')
+            if sa and sa not in carriers and sa.startswith('yash_env::trap::') and sa != GRAND_STATE and not sa.endswith('::TrapSet') \
+                    and any(it.get('def') in acc for it in im['items']):
+                carriers.add(sa)
+                changed = True
+        for fn, sig in F.fns.items():
+            if fn not in acc and any(re.search(re.escape(c) + r'\b', sig.get('output') or '') for c in carriers):
+                acc[fn] = 'all'
+                changed = True
+        for b, blk, t in callers(set(acc)):
+            if not TRAP_MODULE_RE.match(b.root) or PARENT_STATE_STRUCTURAL.match(b.root):
+                continue
+            callee = [n for n in Q.callee_names(t) if n in acc][0]
+            if b.fn == b.root:
+                comps = _returned_components(F, b, set(), {t['dest']['l']: acc[callee]})
+            else:
+                comps = 'all'      # called in a closure of the function: whatever the function returns may carry it
+            if comps is None:
+                continue
+            old = acc.get(b.root)
+            new = 'all' if (comps == 'all' or old == 'all') else set(comps) | set(old or ())
+            if new != old:
+                acc[b.root] = new
+                changed = True
+    for fn in sorted(acc):
+        cx.site('accessor %s: part of the result that can be a parent state: %s' % (fn, acc[fn] if acc[fn] == 'all' else sorted(acc[fn])))
+    cx.require(any(fn.endswith('TrapSet::peek_state') for fn in acc) and any(fn.endswith('TrapSet::get_state') for fn in acc),
+               'TrapSet::peek_state / get_state are no longer recognised as accessors of the parent state')
+    cx.require(acc.get('yash_env::trap::TrapSet::get_state') == {'1'},
+               'TrapSet::get_state no longer returns (current state, parent state) with the parent state as the second component only')
+    n = 0
+    for b, blk, t in callers(set(acc)):
+        if TRAP_MODULE_RE.match(b.root):
+            continue
+        n += 1
+        cx.fn(b.fn)
+        callee = [nm for nm in Q.callee_names(t) if nm in acc][0]
+        short = callee.split('::')[-1]
+        why = [w for p, w in PARENT_STATE_DISPLAY.items() if b.root.startswith(p)]
+        if why:
+            cx.site('%s calls %s at %s: display code (%s)' % (b.root, callee, b.loc(t), why[0][:60]))
+            continue
+        comps = acc[callee]
+        bad = None
+        if comps == 'all':
+            bad = 'the result'
+        else:
+            # only the components that are not a parent state may be looked at
+            hold = {t['dest']['l']}
+            work = True
+            while work and bad is None:
+                work = False
+                places = []
+                for bb, j, s in b.stmts():
+                    if s['k'] == 'assign':
+                        for p in Q.rvalue_places(s['rv']):
+                            places.append((p, s))
+                for bb, tt in b.calls():
+                    for a in tt['a']:
+                        p = Q.operand_place(a)
+                        if p is not None:
+                            places.append((p, tt))
+                for p, node in places:
+                    if p['l'] not in hold:
+                        continue
+                    proj = [e for e in p.get('p') or [] if isinstance(e, dict) and 'f' in e]
+                    if not proj:
+                        if node['k'] == 'assign' and node['rv']['k'] == 'use' and not node['lhs'].get('p'):
+                            if node['lhs']['l'] not in hold:
+                                hold.add(node['lhs']['l'])
+                                work = True
+                        else:
+                            bad = 'the whole result'
+                    elif proj[0]['f'] in comps:
+                        bad = 'component .%s of the result (the parent state)' % proj[0]['f']
+        cx.site('%s calls %s at %s: not display code; uses %s' % (b.root, callee, b.loc(t), bad or 'only the current-state part of the result'))
+        if bad:
+            cx.violation(b.root, 'parent-state-accessor:%s' % short, '%s uses %s of TrapSet::%s, which in a subshell is the trap the PARENT shell had '
+                         '(kept only so that `trap` can print it): code outside the trap built-in acts on it - a subshell that has not changed any '
+                         'trap runs / honours the parent\'s trap action although command traps are reset to default on subshell entry '
+                         '(`trap "echo bye" EXIT; (:)` prints bye twice)' % (b.root, bad, short), loc=b.loc(t))
+    cx.floor(n, 3, 'callers of the parent-state accessors outside the trap module (display_trap, run_exit_trap, sigint_has_default_action)')
+
+
+RS.explanation += (' The parent traps a subshell remembers for display are reachable only through accessors enumerated from the reads of '
+                   'GrandState::parent_state; outside the trap built-in nobody looks at the parent-state part of their result (R15).')
+
+
+# ---------------------------------------------------------------- C08.R16: descriptors held in the fields of PipeSet
+PIPESET = 'yash_semantics::command::pipeline::PipeSet'
+PIPESET_FNS = ['yash_semantics::command::pipeline::PipeSet::shift']
+OPTION_TAKERS = [re.compile(r'^core::option::Option::<T>::(take|replace)$'), re.compile(r'^core::mem::(take|replace)(::<.*>)?$')]
+
+
+def _held_components(F, adt):
+    """{field: [component ids]} for the fields of `adt` that hold descriptors: ('read_previous', None), ('next', '0'), ('next', '1')."""
+    out = {}
+    for v in F.adts[adt]['variants']:
+        for f in v['fields']:
+            n = f['ty'].count(FD_TY)
+            if n == 1:
+                out[f['name']] = [(f['name'], None)]
+            elif n > 1:
+                out[f['name']] = [(f['name'], str(i)) for i in range(n)]
+    return out
+
+
+def _pos_before(body, a, b):
+    """Position a = (block, index) can execute before position b."""
+    if a[0] == b[0] and a[1] < b[1]:
+        return True
+    return any(b[0] in body.reachable(s) for s in body.succ(a[0]))
+
+
+class _HeldFds:
+    """Reads, writes and releases of the descriptors held in the fields of a struct reached through the locals of one body."""
+
+    def __init__(self, F, body, adt, comps_of):
+        self.F, self.body, self.adt, self.comps_of = F, body, adt, comps_of
+        self.du = Q.DefUse(body)
+        self.all = {c for cs in comps_of.values() for c in cs}
+        self.reads = []       # (pos, field|None(whole), dest local, place)
+        self.writes = []      # (pos, field|None(whole), node, value operand|None, 'assign'|'take'|'call')
+        self.unknown = []     # mutable borrows that cannot be followed
+        self._scan()
+
+    def _whole(self, p):
+        ty = self.body.locals[p['l']].get('ty', '')
+        proj = [e for e in p.get('p') or []]
+        return (ty in (self.adt,) and not proj) or (ty in ('&mut ' + self.adt, '&' + self.adt) and proj == ['*'])
+
+    def _field(self, p):
+        return Q._projects_field(p, self.adt, None)
+
+    def _scan(self):
+        body = self.body
+        for b, j, s in body.stmts():
+            if s['k'] != 'assign':
+                continue
+            lhs, rv = s['lhs'], s['rv']
+            f = self._field(lhs)
+            if f in self.comps_of:
+                val = rv['o'] if rv['k'] == 'use' else None
+                self.writes.append(((b, j), f, s, val, 'assign'))
+            elif self._whole(lhs) and lhs.get('p'):
+                self.writes.append(((b, j), None, s, rv['o'] if rv['k'] == 'use' else None, 'assign'))
+            if rv['k'] in ('ref', 'rawptr') and rv.get('mut'):
+                f = self._field(rv['pl'])
+                if f in self.comps_of:
+                    t = body.term(b)
+                    alias = {lhs['l']}          # reborrows `&mut *tmp` made for the call
+                    for s2 in body.blocks[b]['s'][j + 1:]:
+                        if s2['k'] == 'assign' and s2['rv']['k'] == 'ref' and s2['rv']['pl']['l'] in alias and s2['rv']['pl'].get('p') == ['*'] \
+                                and not s2['lhs'].get('p'):
+                            alias.add(s2['lhs']['l'])
+                    used = t['k'] == 'call' and t['a'] and Q.operand_local(t['a'][0]) in alias
+                    if used and Q.callee_is(t, OPTION_TAKERS):
+                        n = len(body.blocks[b]['s'])
+                        self.reads.append(((b, n), f, t['dest']['l'], rv['pl']))
+                        self.writes.append(((b, n), f, t, t['a'][1] if len(t['a']) > 1 else None, 'take'))
+                    else:
+                        self.unknown.append((b, s))
+                continue
+            if rv['k'] == 'discr':
+                continue
+            for p in Q.rvalue_places(rv):
+                f = self._field(p)
+                if f in self.comps_of:
+                    self.reads.append(((b, j), f, lhs['l'], p))
+                elif self._whole(p) and rv['k'] == 'use':
+                    self.reads.append(((b, j), None, lhs['l'], p))
+        for b, t in body.calls():
+            n = len(body.blocks[b]['s'])
+            f = self._field(t['dest'])
+            if f in self.comps_of:
+                self.writes.append(((b, n), f, t, None, 'call'))
+
+    def writes_of(self, field):
+        return [w for w in self.writes if w[1] in (field, None)]
+
+    def epoch_reads(self, field, start):
+        """Reads of `field` that see the value the field has from `start` on (None = on entry; else the position of a write)."""
+        ws = self.writes_of(field)
+        out = []
+        for r in self.reads:
+            if r[1] not in (field, None):
+                continue
+            pos = r[0]
+            if start is None:
+                if any(w[0] == pos and w[4] != 'take' or (w[0] != pos and _pos_before(self.body, w[0], pos)) for w in ws):
+                    continue
+            else:
+                if not (start != pos and _pos_before(self.body, start, pos)):
+                    continue
+                if any(w[0] != start and w[0] != pos and _pos_before(self.body, start, w[0]) and _pos_before(self.body, w[0], pos) for w in ws):
+                    continue
+            out.append(r)
+        return out
+
+    def comps_of_place(self, base, p):
+        for e in p.get('p') or []:
+            if isinstance(e, dict) and 'f' in e:
+                if e.get('adt') == self.adt:
+                    base = {c for c in base if c[0] == e['f']}
+                elif 'adt' not in e:
+                    base = {c for c in base if c[1] in (None, e['f'])}
+        return set(base)
+
+    def taint(self, field, reads):
+        """local -> components (of `field`) its value is."""
+        comp = {}
+        for pos, f, l, p in reads:
+            base = set(self.comps_of[field])
+            if f is None:
+                base = self.comps_of_place(set(self.all), {'l': 0, 'p': []}) & base
+            else:
+                base = self.comps_of_place(base, {'l': 0, 'p': [e for e in p.get('p') or [] if not (isinstance(e, dict) and e.get('adt') == self.adt)]})
+            comp.setdefault(l, set()).update(base)
+        seeds = set(comp)
+        body = self.body
+        changed = True
+        while changed:
+            changed = False
+            for b, j, s in body.stmts():
+                if s['k'] != 'assign' or s['lhs'].get('p') or s['rv']['k'] == 'discr':
+                    continue
+                l = s['lhs']['l']
+                if l in seeds:
+                    continue
+                new = set()
+                for p in Q.rvalue_places(s['rv']):
+                    if p['l'] in comp:
+                        new |= self.comps_of_place(comp[p['l']], p)
+                if not new <= comp.get(l, set()):
+                    comp.setdefault(l, set()).update(new)
+                    changed = True
+            for b, t in body.calls():
+                if not Q.callee_is(t, R11_THROUGH):
+                    continue
+                l = t['dest']['l']
+                if l in seeds or t['dest'].get('p'):
+                    continue
+                new = set()
+                for a in t['a']:
+                    p = Q.operand_place(a)
+                    if p is not None and p['l'] in comp:
+                        new |= self.comps_of_place(comp[p['l']], p)
+                if not new <= comp.get(l, set()):
+                    comp.setdefault(l, set()).update(new)
+                    changed = True
+        return comp
+
+    def of_operand(self, comp, o):
+        p = Q.operand_place(o)
+        if p is None or p['l'] not in comp:
+            return set()
+        return self.comps_of_place(comp[p['l']], p)
+
+    def releases(self, comp, c, closers, notes):
+        """{block: position} where component c (as tracked by `comp`) is closed, handed to a function that closes every descriptor of the
+        struct, or stored into a field of the struct (from then on it is that field's value)."""
+        body = self.body
+        rel = {}
+        for b, t in body.calls():
+            n = len(body.blocks[b]['s'])
+            for i, a in enumerate(t['a']):
+                cs = self.of_operand(comp, a)
+                if c not in cs:
+                    continue
+                if Q.callee_is(t, CLOSE_PATS) and cs == {c}:
+                    rel[b] = (b, n)
+                    notes.append('closed at %s' % body.loc(t))
+                elif (t['f'].get('def') in closers) and i < len(t.get('at') or []) and t['at'][i] == self.adt:
+                    rel[b] = (b, n)
+                    notes.append('closed by %s at %s' % (t['f']['def'].split('::')[-1], body.loc(t)))
+        for pos, f, node, val, how in self.writes:
+            if val is not None and c in self.of_operand(comp, val):
+                rel.setdefault(pos[0], pos)
+                notes.append('stored into %s at %s' % (f or 'the struct', body.loc(node)))
+        return rel
+
+    def absent_edges(self, comp, c, field, start):
+        """Switch edges on which component c is known to be absent (the Option that holds it is None)."""
+        body, out = self.body, set()
+        for u in body.live_blocks():
+            ec = Q.edge_condition(self.F, body, self.du, u)
+            if ec is None or ec[0]['k'] != 'discr':
+                continue
+            pl = ec[0]['pl']
+            hit = False
+            if pl['l'] in comp and c in self.comps_of_place(comp[pl['l']], pl):
+                hit = True
+            elif self._field(pl) == field:
+                # the field itself is tested: the test must see the value of this epoch
+                blk = u
+                pos = (blk, 0)
+                ws = self.writes_of(field)
+                if start is None:
+                    hit = not any(_pos_before(body, w[0], (blk, len(body.blocks[blk]['s']))) and w[0][0] != blk or
+                                  (w[0][0] == blk) for w in ws)
+                else:
+                    hit = _pos_before(body, start, pos) and not any(
+                        w[0] != start and _pos_before(body, start, w[0]) and _pos_before(body, w[0], (blk, len(body.blocks[blk]['s']))) for w in ws)
+            if not hit:
+                continue
+            for tgt, labs in ec[1].items():
+                if labs and all(l[0] == 'variant' and l[1] in Q.ABSENT_VARIANTS for l in labs):
+                    out.add((u, tgt))
+        return out
+
+
+def _closes_every_held_fd(F, fn, adt, comps_of, cx):
+    """fn(self: adt, ..) closes every descriptor of the struct it is given on every path to its return."""
+    pl = _param_locals(F, fn, 0)
+    if pl is None:
+        return False
+    main, ls = pl
+    h = _HeldFds(F, main, adt, comps_of)
+    ok = True
+    for field, cs in comps_of.items():
+        reads = [((0, -1), None, l, {'l': l}) for l in ls]
+        comp = h.taint(field, reads)
+        for c in cs:
+            notes = []
+            rel = h.releases(comp, c, set(), notes)
+            absent = h.absent_edges(comp, c, field, None)
+            p = Q.must_pass(main, [0], set(rel), removed_edges=absent)
+            cx.site('%s: %s%s of the struct it is given: %s' % (fn, c[0], '.' + c[1] if c[1] else '', '; '.join(notes) or 'not closed'))
+            if p is not None:
+                ok = False
+    return ok
+
+
+def _plain_taint(body, seeds):
+    """Locals whose value is derived from the seed locals (assignments to whole locals and value-propagating calls only: a store
+    through a reference does not make the reference itself derived)."""
+    taint = set(seeds)
+    changed = True
+    while changed:
+        changed = False
+        for b, j, s in body.stmts():
+            if s['k'] == 'assign' and not s['lhs'].get('p') and s['lhs']['l'] not in taint and s['rv']['k'] != 'discr' \
+                    and any(p['l'] in taint for p in Q.rvalue_places(s['rv'])):
+                taint.add(s['lhs']['l'])
+                changed = True
+        for b, t in body.calls():
+            if Q.callee_is(t, R11_THROUGH) and not t['dest'].get('p') and t['dest']['l'] not in taint \
+                    and any(Q.operand_local(a) in taint for a in t['a']):
+                taint.add(t['dest']['l'])
+                changed = True
+    return taint
+
+
+def _comp_name(c):
+    return c[0] + ('.' + c[1] if c[1] is not None else '')
+
+
+@RS.rule('C08.R16', 'K-RES', 'starting the members of a pipeline leaves no descriptor behind in the shell: in PipeSet::shift every descriptor held in a '
+         'field of the PipeSet (read_previous, both ends of next) when the function is entered, and every descriptor stored into a field on the way, '
+         'has been closed, handed to close_all, or moved into a field before that field is overwritten and before the function returns (the Option '
+         'being None on that path counts); the pair returned by pipe() is stored into a field on the success path')
+def r16(cx):
+    F = cx.F
+    cx.require(PIPESET in F.adts, 'struct PipeSet not found')
+    comps_of = _held_components(F, PIPESET)
+    cx.require(set(comps_of) >= {'read_previous', 'next'} and len(comps_of['next']) == 2, 'PipeSet no longer holds read_previous: Option<Fd>, next: Option<(Fd, Fd)>')
+    # functions that close every descriptor of a PipeSet passed by value
+    closers = set()
+    for fn, sig in F.fns.items():
+        if fn.startswith(PIPESET + '::') and (sig.get('inputs') or [''])[0] == PIPESET and fn in F.bodies:
+            if _closes_every_held_fd(F, fn, PIPESET, comps_of, cx):
+                closers.add(fn)
+            cx.fn(fn)
+    nsites = 0
+    for fn in PIPESET_FNS:
+        body = F.inlined(F.main_body(fn), accept=lambda callee: callee not in closers)
+        cx.fn(body.fn)
+        h = _HeldFds(F, body, PIPESET, comps_of)
+        for b, s in h.unknown:
+            cx.require(False, '%s: a field of the PipeSet is borrowed mutably at %s for something else than Option::take / replace: follow it in C08.R16' % (fn, body.loc(s)))
+        rets = set(body.return_blocks())
+        for field, cs in sorted(comps_of.items()):
+            ws = h.writes_of(field)
+            # epochs: the value on entry, and the value stored by each write that stores something
+            epochs = [(None, 'entry')]
+            for w in ws:
+                pos, f, node, val, how = w
+                if how == 'take' and val is None:
+                    continue
+                if val is not None:
+                    o = h.du.origin(val)
+                    if o['k'] == 'agg' and o['rv'].get('adt') == 'core::option::Option' and o['rv'].get('variant') == 'None':
+                        continue
+                epochs.append((pos, 'stored'))
+            for start, ename in epochs:
+                reads = h.epoch_reads(field, start)
+                comp = h.taint(field, reads)
+                if start is None:
+                    goals, starts = rets, [0]
+                else:
+                    later = [w for w in ws if w[0] != start and _pos_before(body, start, w[0])]
+                    goals = {w[0][0] for w in later}
+                    starts = body.succ(start[0])
+                    if any(w[0][0] == start[0] and w[0][1] > start[1] for w in later):
+                        starts = [start[0]]
+                    if not goals:
+                        cx.site('%s: %s set at %s is not overwritten later in the function (kept for the next member)' % (fn, field, body.loc(ws[[w[0] for w in ws].index(start)][2])))
+                        nsites += 1
+                        continue
+                for c in cs:
+                    notes = []
+                    rel = h.releases(comp, c, closers, notes)
+                    if start is not None:
+                        # a release located in the block of the write counts only after the write
+                        rel = {b: p for b, p in rel.items() if b != start[0] or p[1] > start[1]}
+                    absent = h.absent_edges(comp, c, field, start)
+                    nsites += 1
+                    where = 'held on entry' if start is None else 'stored at %s' % body.loc(ws[[w[0] for w in ws].index(start)][2])
+                    cx.site('%s: %s %s: %s; known absent on %d edge(s)' % (fn, _comp_name(c), where, '; '.join(sorted(set(notes))) or 'never released', len(absent)))
+                    through = set(rel)
+                    if start is not None and start[0] in through:
+                        continue
+                    p = Q.must_pass(body, starts, through, goals, removed_edges=absent)
+                    if p is None:
+                        continue
+                    end = 'returns' if start is None else 'overwrites the field'
+                    cx.violation(fn, 'held-descriptor-dropped:%s|%s' % (_comp_name(c), 'entry' if start is None else 'stored'),
+                                 'PipeSet::shift %s while the descriptor %s (%s) is neither closed nor moved into another field on this path: the '
+                                 'parent shell keeps one more open descriptor for every further member of the pipeline (`a | b | c | d` leaves the read '
+                                 'ends of the inner pipes open in the shell), every later child inherits them and a writer never sees EPIPE/EOF '
+                                 'when its reader exits' % (end, _comp_name(c), where),
+                                 loc=body.loc(body.term(p[-1])), path=Q.render_path(body, p))
+        # the fresh pair: on the success path it is stored into a field (or closed)
+        for pb, pt in Q.find_calls(body, PIPE_PATS):
+            taint = _plain_taint(body, {pt['dest']['l']})
+            rel = {w[0][0] for w in h.writes if w[3] is not None and Q.operand_local(w[3]) in taint}
+            rel |= {b for b, t in Q.find_calls(body, CLOSE_PATS) if any(Q.operand_local(a) in taint for a in t['a'])}
+            absent = set()
+            for u in body.live_blocks():
+                ec = Q.edge_condition(F, body, h.du, u)
+                if ec and ec[0]['k'] == 'discr' and ec[0]['pl']['l'] in taint:
+                    for tgt, labs in ec[1].items():
+                        if labs and all(l[0] == 'variant' and l[1] in Q.ABSENT_VARIANTS for l in labs):
+                            absent.add((u, tgt))
+            nsites += 1
+            cx.site('%s: pipe() at %s, pair stored into a field / closed in blocks %s' % (fn, body.loc(pt), sorted(rel)))
+            p = Q.must_pass(body, body.succ(pb), rel, removed_edges=absent)
+            if p is not None:
+                cx.violation(fn, 'fresh-pipe-not-kept', 'after a successful pipe() PipeSet::shift can return without storing the pair into the PipeSet '
+                             '(nor closing it): both descriptors stay open in the shell with nobody to close them', loc=body.loc(pt), path=Q.render_path(body, p))
+    cx.floor(nsites, 6, 'descriptor epochs examined in PipeSet::shift (3 on entry, read_previous stored, next stored, pipe())')
+
+
+RS.explanation += (' In PipeSet::shift every descriptor held in read_previous / next on entry or stored there on the way is closed, given to close_all '
+                   'or moved into a field before the field is overwritten and before the function returns; the pipe() pair is kept on success (R16).')
